@@ -195,6 +195,17 @@ func detGenesis(app *osmoapp.OsmosisApp, accts []detAcct) []byte {
 		gs[txfeestypes.ModuleName] = cdc.MustMarshalJSON(tg)
 	}
 	{
+		// factory denoms that exist from genesis: one whose admin was renounced (empty admin: nobody can ever
+		// administer it again), one administered by somebody else than its creator.  No generated tx touches them,
+		// so every export must reproduce these two entries (detGenesisEntries).
+		tg := tokenfactorytypes.DefaultGenesis()
+		tg.FactoryDenoms = []tokenfactorytypes.GenesisDenom{
+			{Denom: "factory/" + accts[0].addr.String() + "/gen0", AuthorityMetadata: tokenfactorytypes.DenomAuthorityMetadata{Admin: ""}},
+			{Denom: "factory/" + accts[1].addr.String() + "/gen1", AuthorityMetadata: tokenfactorytypes.DenomAuthorityMetadata{Admin: accts[2].addr.String()}},
+		}
+		gs[tokenfactorytypes.ModuleName] = cdc.MustMarshalJSON(tg)
+	}
+	{
 		pg := protorevtypes.DefaultGenesis()
 		pg.Params.Admin = accts[1].addr.String()
 		gs[protorevtypes.ModuleName] = cdc.MustMarshalJSON(pg)
@@ -599,7 +610,7 @@ func (g *detGen) nextTx(a *detNode, pools []poolInfo, si int) detTx {
 	ctx := a.readCtx()
 	weights := map[string]int{"send": 6, "multisend": 1, "lock": 6, "unlock": 4, "unlockall": 1, "createbal": 2, "createstable": 1, "createcl": 2,
 		"join": 5, "exit": 3, "joinswap": 2, "swapin": 10, "swapout": 4, "split": 3, "clpos": 7, "clwithdraw": 3, "clcollect": 3, "cladd": 1,
-		"tfcreate": 2, "tfmint": 4, "tfburn": 2, "tfadmin": 1, "gauge": 5, "addgauge": 2, "delegate": 2, "withdrawrewards": 2, "bogus": 2,
+		"tfcreate": 2, "tfmint": 4, "tfburn": 2, "tfadmin": 2, "gauge": 5, "addgauge": 2, "delegate": 2, "withdrawrewards": 2, "bogus": 2,
 		"setfeetoken": 1, "protorevbase": 1}
 	if len(pools) < 3 {
 		weights["createbal"], weights["createcl"], weights["createstable"] = 12, 12, 4
@@ -645,6 +656,15 @@ func (g *detGen) nextTx(a *detNode, pools []poolInfo, si int) detTx {
 		tx.msgs = []sdk.Msg{&banktypes.MsgSend{FromAddress: me.addr.String(), ToAddress: other.addr.String(), Amount: sdk.NewCoins(sdk.NewCoin("uosmo", g.amount(100000)))}}
 		tx.kind += ">send"
 	}
+	// MsgCreateDenom consumes DenomCreationGasConsume (1,000,000) gas on top of the message itself
+	tfGas := func() {
+		if tx.gas >= 900_000 && tx.gas < 2_500_000 {
+			tx.gas = 2_500_000
+			if len(tx.fee) == 1 && tx.fee[0].Denom == "uosmo" {
+				tx.fee = sdk.NewCoins(sdk.NewInt64Coin("uosmo", int64(tx.gas)*3/100+g.r.Int63n(5000)))
+			}
+		}
+	}
 	switch kind {
 	case "send":
 		d := detDenoms[g.r.Intn(len(detDenoms))]
@@ -666,6 +686,9 @@ func (g *detGen) nextTx(a *detNode, pools []poolInfo, si int) detTx {
 		}
 		durs := []time.Duration{time.Hour, 3 * time.Hour, 7 * time.Hour, 7 * time.Hour, 24 * time.Hour, 14 * 24 * time.Hour}
 		dur := durs[g.r.Intn(len(durs))]
+		if g.r.Intn(3) == 0 {
+			dur += time.Duration(1+g.r.Intn(40)) * 7 * time.Minute
+		}
 		var coin sdk.Coin
 		if len(shares) > 0 && g.r.Intn(4) != 0 {
 			s := shares[g.r.Intn(len(shares))]
@@ -852,6 +875,7 @@ func (g *detGen) nextTx(a *detNode, pools []poolInfo, si int) detTx {
 			tx.msgs = []sdk.Msg{&cltypes.MsgAddToPosition{PositionId: p.PositionId, Sender: me.addr.String(), Amount0: g.amount(100000), Amount1: g.amount(100000), TokenMinAmount0: sdkmath.ZeroInt(), TokenMinAmount1: sdkmath.ZeroInt()}}
 		}
 	case "tfcreate":
+		tfGas()
 		sub := fmt.Sprintf("tok%d", g.nTf)
 		g.nTf++
 		g.tfDenom[si] = append(g.tfDenom[si], sub)
@@ -863,6 +887,7 @@ func (g *detGen) nextTx(a *detNode, pools []poolInfo, si int) detTx {
 			g.tfDenom[si] = append(g.tfDenom[si], sub)
 			tx.msgs = []sdk.Msg{&tokenfactorytypes.MsgCreateDenom{Sender: me.addr.String(), Subdenom: sub}}
 			tx.kind += ">tfcreate"
+			tfGas()
 			break
 		}
 		denom := "factory/" + me.addr.String() + "/" + g.tfDenom[si][g.r.Intn(len(g.tfDenom[si]))]
@@ -876,7 +901,12 @@ func (g *detGen) nextTx(a *detNode, pools []poolInfo, si int) detTx {
 		case "tfburn":
 			tx.msgs = []sdk.Msg{&tokenfactorytypes.MsgBurn{Sender: me.addr.String(), Amount: sdk.NewCoin(denom, g.amount(1000)), BurnFromAddress: ""}}
 		case "tfadmin":
-			tx.msgs = []sdk.Msg{&tokenfactorytypes.MsgChangeAdmin{Sender: me.addr.String(), Denom: denom, NewAdmin: other.addr.String()}}
+			na := other.addr.String()
+			if g.r.Intn(6) == 0 {
+				na = "" // rejected by ValidateBasic (a transaction cannot renounce; an admin-less denom exists only from genesis)
+				tx.kind += ">renounce"
+			}
+			tx.msgs = []sdk.Msg{&tokenfactorytypes.MsgChangeAdmin{Sender: me.addr.String(), Denom: denom, NewAdmin: na}}
 		}
 	case "gauge":
 		ps := append(poolsOf(poolmanagertypes.Balancer), poolsOf(poolmanagertypes.Stableswap)...)
@@ -1211,7 +1241,9 @@ func detGenBlock(g *detGen, a *detNode, k int) []detTx {
 		var txs []detTx
 		for i, ac := range g.accts {
 			txs = append(txs, detTx{signer: i, gas: 950_000, fee: fee(950_000), kind: "lock", memo: "warmup",
-				msgs: []sdk.Msg{&lockuptypes.MsgLockTokens{Owner: ac.addr.String(), Duration: 7 * time.Hour, Coins: sdk.NewCoins(sdk.NewInt64Coin("foo", int64(1000+37*i)))}}})
+				// pairwise distinct durations: more leaves than the accumulation tree's fan-out, so that the shape of the
+				// tree rebuilt by InitGenesis depends on the order in which the durations are inserted
+				msgs: []sdk.Msg{&lockuptypes.MsgLockTokens{Owner: ac.addr.String(), Duration: 7*time.Hour + time.Duration(i)*11*time.Minute, Coins: sdk.NewCoins(sdk.NewInt64Coin("foo", int64(1000+37*i)))}}})
 		}
 		return txs
 	}
@@ -1360,10 +1392,21 @@ func runDetHistory(t *testing.T, o *Out, accts []detAcct, hseed int64, hist int,
 				o.Fail("export-import:after-store-sync:imported-node-halts", fmt.Sprintf("hist %d block %d (imported after block %d): %v", hist, k, exportAt, errD))
 				d = nil
 			} else {
-				rA, rD := obA.resultsDigest()+fmt.Sprint(obA.gas), obD.resultsDigest()+fmt.Sprint(obD.gas)
+				// gas of a tx whose gas-at-out-of-gas is order dependent on ANY two nodes (x.known, F26) is masked here
+				// exactly as in digest(); detExplain reports it under its own key
+				mg := func(ob blockObs) string {
+					g := append([]int64{}, ob.gas...)
+					for i := range g {
+						if i < len(obA.known) && obA.known[i] != "" {
+							g[i] = -1
+						}
+					}
+					return fmt.Sprint(g)
+				}
+				rA, rD := obA.resultsDigest()+mg(obA), obD.resultsDigest()+mg(obD)
 				o.Emit(fmt.Sprintf("det tx %d.%d %s", hist, k, shortDigest(rA)), shortDigest(rD), nonTrivial)
 				o.Count("import.synced.block")
-				if rA != rD {
+				if rA != rD || fmt.Sprint(obA.gas) != fmt.Sprint(obD.gas) {
 					detExplain(o, hist, k, txs, obA, obD, "store-sync", false)
 				}
 			}
@@ -1384,6 +1427,7 @@ func runDetHistory(t *testing.T, o *Out, accts []detAcct, hseed int64, hist int,
 				o.Fail("nondeterminism:export:module-state", fmt.Sprintf("hist %d after block %d: nodes A and B export different genesis: %s", hist, k, jsonDiff(exp.appState, expB.appState)))
 			}
 			firstExport = exp
+			detGenesisEntries(o, hist, k, exp, accts)
 			// (i) as a node started without --x-crisis-skip-assert-invariants would
 			if _, err := importDetNode(t, "C0", exp, a.time, a.valAddr, false); err != nil {
 				key := "export-import:import-failed:other"
@@ -1439,6 +1483,11 @@ func runDetHistory(t *testing.T, o *Out, accts []detAcct, hseed int64, hist int,
 			// second imported node whose raw KV stores are then made byte-identical to A's
 			nd, err := importDetNode(t, "D", exp, a.time, a.valAddr, true)
 			if err == nil {
+				// importing the same genesis twice gives byte-identical stores (InitGenesis itself is deterministic)
+				if left := detStoreDiff(c, nd, 3); len(left) > 0 {
+					o.Fail("nondeterminism:import-twice:raw-store", fmt.Sprintf("hist %d after block %d: %s", hist, k, strings.Join(left, " ;; ")))
+				}
+				o.Count("import.twice-compared")
 				for cls, cnt := range detStoreSync(a, nd) {
 					o.dist["rawstore-diff-after-import."+cls] += cnt
 				}
@@ -1876,6 +1925,42 @@ func sortedKeysS(m map[string]string) []string {
 	}
 	sort.Strings(ks)
 	return ks
+}
+
+// detGenesisEntries: entries of the chain's own genesis that no transaction can change are still in every
+// export, unchanged (export after import of the original genesis + a history that does not touch them).
+func detGenesisEntries(o *Out, hist, k int, exp exportedState, accts []detAcct) {
+	var tf struct {
+		FactoryDenoms []struct {
+			Denom             string `json:"denom"`
+			AuthorityMetadata struct {
+				Admin string `json:"admin"`
+			} `json:"authority_metadata"`
+		} `json:"factory_denoms"`
+	}
+	raw, ok := exp.modules["tokenfactory"]
+	if !ok || json.Unmarshal(raw, &tf) != nil {
+		o.Fail("export-import:genesis-entry:tokenfactory-unreadable", fmt.Sprintf("hist %d after block %d", hist, k))
+		return
+	}
+	want := map[string]string{"factory/" + accts[0].addr.String() + "/gen0": "", "factory/" + accts[1].addr.String() + "/gen1": accts[2].addr.String()}
+	seen := 0
+	for _, d := range tf.FactoryDenoms {
+		if w, ok := want[d.Denom]; ok {
+			seen++
+			if d.AuthorityMetadata.Admin != w {
+				cls := "foreign-admin"
+				if w == "" {
+					cls = "renounced-admin"
+				}
+				o.Fail("export-import:genesis-entry-changed:tokenfactory:"+cls, fmt.Sprintf("hist %d after block %d: %s imported with admin %q, exported with admin %q", hist, k, d.Denom, w, d.AuthorityMetadata.Admin))
+			}
+		}
+	}
+	if seen != len(want) {
+		o.Fail("export-import:genesis-entry-lost:tokenfactory", fmt.Sprintf("hist %d after block %d: %d of %d genesis denoms exported", hist, k, seen, len(want)))
+	}
+	o.Count("export.genesis-entries-checked")
 }
 
 // detExplain decodes which component of two block observations differs.
